@@ -222,8 +222,14 @@ class UGrammarPredictorLayer(nn.Module, Generic[A, U, V, W]):
                     # There are no other choices than variables
                     var_probability = 1
                 # Normalise variable probability
+                # a variable or constant can have several alternatives (e.g. a
+                # variable used as a function): each alternative is tagged below,
+                # so the mass is shared among alternatives
+                n_alternatives = sum(
+                    len(grammar.rules[S][P]) for P in variables + constants  # type: ignore
+                )
                 normalised_variable_logprob: float = np.log(
-                    var_probability / (len(variables) + len(constants))
+                    var_probability / n_alternatives
                 )
                 for P in variables:
                     for v in grammar.rules[S][P]:
